@@ -33,6 +33,21 @@ use std::time::Duration;
 use tokio::sync::mpsc::Sender;
 use tokio::sync::RwLock;
 
+/// verification hook (only with `--cfg saito_verif`): counts the iterations of the walks over block
+/// ids in `process_incoming_blockchain_request` and `generate_ghost_chain` and makes them give up once
+/// the limit set by the harness is exceeded, so that an unbounded walk becomes a deterministic
+/// verdict instead of a hang.
+#[cfg(saito_verif)]
+pub static VERIF_ID_WALK_STEPS: std::sync::atomic::AtomicU64 = std::sync::atomic::AtomicU64::new(0);
+#[cfg(saito_verif)]
+pub static VERIF_ID_WALK_LIMIT: std::sync::atomic::AtomicU64 =
+    std::sync::atomic::AtomicU64::new(u64::MAX);
+#[cfg(saito_verif)]
+fn verif_id_walk_exceeded() -> bool {
+    use std::sync::atomic::Ordering;
+    VERIF_ID_WALK_STEPS.fetch_add(1, Ordering::Relaxed) + 1 > VERIF_ID_WALK_LIMIT.load(Ordering::Relaxed)
+}
+
 #[derive(Debug)]
 pub enum RoutingEvent {
     BlockchainUpdated(BlockHash),
@@ -367,6 +382,10 @@ impl RoutingThread {
             latest_block_id.saturating_sub(blockchain.blockring.get_ring_buffer_size()),
         );
         for i in first_block_id..=latest_block_id {
+            #[cfg(saito_verif)]
+            if verif_id_walk_exceeded() {
+                break;
+            }
             if let Some(hash) = blockchain
                 .blockring
                 .get_longest_chain_block_hash_at_block_id(i)
@@ -479,6 +498,10 @@ impl RoutingThread {
             latest_block_id.saturating_sub(blockchain.blockring.get_ring_buffer_size()),
         );
         for i in first_block_id..=latest_block_id {
+            #[cfg(saito_verif)]
+            if verif_id_walk_exceeded() {
+                break;
+            }
             if let Some(block_hash) = blockchain
                 .blockring
                 .get_longest_chain_block_hash_at_block_id(i)
